@@ -135,9 +135,9 @@ Proof. repeat split; reflexivity. Qed.
 (* ------------------------------------------------------------------------------------------ *)
 (** * ratios *)
 
-Lemma rat_tail_loop n nneg d dneg dmark rel tail b : rat_tail_spec tail = Some b ->
-  rat_loop (mk_rst (Some n) nneg (Some d) dneg dmark rel false None) tail =
-  Some (mk_rst (Some n) nneg (Some d) dneg dmark rel (match b with Some _ => true | None => false end) b).
+Lemma rat_tail_loop n nneg ns d dneg ds dmark rel tail b : rat_tail_spec tail = Some b ->
+  rat_loop (mk_rst (Some n) nneg ns (Some d) dneg ds dmark rel false None) tail =
+  Some (mk_rst (Some n) nneg ns (Some d) dneg ds dmark rel (match b with Some _ => true | None => false end) b).
 Proof.
   unfold rat_tail_spec. destruct tail as [|t1 [|t2 [|t3 r]]]; try discriminate.
   - intros H. inversion H. reflexivity.
@@ -147,8 +147,8 @@ Qed.
 
 Ltac step_loop := cbn [rat_loop rat_step tk ttext is_char is_punct_char text_eqb Z.eqb Pos.eqb andb negb].
 
-Lemma rat_rest_loop rel nneg nt rest r : rat_rest_spec rel nneg nt rest = Some r ->
-  match rat_loop (mk_rst (Some nt) nneg None false false rel false None) rest with
+Lemma rat_rest_loop rel nneg ns nt rest r : rat_rest_spec rel nneg nt rest = Some r ->
+  match rat_loop (mk_rst (Some nt) nneg ns None false false false rel false None) rest with
   | Some st => rat_finish st = Some r
   | None => False
   end.
@@ -156,21 +156,22 @@ Proof.
   unfold rat_rest_spec. destruct rest as [|s rest'].
   - intros H. inversion H. reflexivity.
   - destruct (is_punct_char s 47) eqn:E47; [|discriminate]. rewrite (punct_inv _ _ E47). clear E47 s.
-    assert (W : forall dneg d tail b, is_value_tok d = true -> rat_tail_spec tail = Some b ->
-      match rat_loop (mk_rst (Some nt) nneg None dneg true rel false None) (d :: tail) with
+    assert (W : forall dneg ds d tail b, is_value_tok d = true -> rat_tail_spec tail = Some b ->
+      match rat_loop (mk_rst (Some nt) nneg ns None dneg ds true rel false None) (d :: tail) with
       | Some st => rat_finish st = Some (rel, nneg, nt, Some (dneg, ttext d), b)
       | None => False
       end).
-    { intros dneg d tail b Hv Ht. destruct (value_inv d Hv) as [E|E]; rewrite E; step_loop;
-        rewrite (rat_tail_loop _ _ _ _ _ _ _ _ Ht); destruct b; reflexivity. }
+    { intros dneg ds d tail b Hv Ht. destruct (value_inv d Hv) as [E|E]; rewrite E; step_loop;
+        rewrite (rat_tail_loop _ _ _ _ _ _ _ _ _ _ Ht); destruct b; reflexivity. }
     destruct rest' as [|t2 r2]; cbn [strip_one]; [discriminate|].
     destruct (is_sign_tok t2) eqn:S2.
     + destruct r2 as [|d tail]; [discriminate|]. destruct (is_value_tok d) eqn:Vd; [|discriminate].
       destruct (rat_tail_spec tail) as [b|] eqn:Tl; [|discriminate].
-      destruct (sign_inv _ S2) as [E|E]; rewrite E; intros H; inversion H; subst r; clear H; step_loop; apply W; assumption.
+      destruct (sign_inv _ S2) as [E|E]; rewrite E; intros H; inversion H; subst r; clear H;
+        [apply (W true true d tail b Vd Tl) | apply (W false true d tail b Vd Tl)].
     + destruct (is_value_tok t2) eqn:Vd; [|discriminate].
       destruct (rat_tail_spec r2) as [b|] eqn:Tl; [|discriminate].
-      intros H; inversion H; subst r; clear H. step_loop. apply W; assumption.
+      intros H; inversion H; subst r; clear H. apply (W false false t2 r2 b Vd Tl).
 Qed.
 
 Ltac stage H :=
@@ -198,8 +199,10 @@ Proof.
     | context [is_value_tok ?n] =>
       destruct (is_value_tok n) eqn:Vn; [|discriminate];
       destruct (value_inv n Vn) as [E|E]; rewrite E; step_loop; rewrite <- ?E;
-      apply rat_rest_loop in H;
-      match type of H with match ?x with _ => _ end => destruct x; [exact H | contradiction] end
+      match goal with
+      | |- context [rat_loop (mk_rst _ _ ?ns _ _ _ _ _ _ _) _] => pose proof (rat_rest_loop _ _ ns _ _ _ H) as H1
+      end;
+      match type of H1 with match ?x with _ => _ end => destruct x; [exact H1 | contradiction] end
     end.
 Qed.
 
@@ -208,27 +211,62 @@ Example rat_tokens_spec_nonvacuous :
   = Some (true, true, [49], Some (false, [49; 51]), None).
 Proof. reflexivity. Qed.
 
-(** F04: a fraction without a slash, a dangling slash *)
-Theorem rat_tokens_refuted :
-  (exists ts, rat_tokens_spec ts = None /\ rat_tokens_asis ts = Some (false, false, [49], Some (false, [50]), None)) /\
-  (exists ts, rat_tokens_spec ts = None /\ rat_tokens_asis ts = Some (false, false, [49], None, None) /\ length ts = 2%nat).
+(** every accepted token sets one more of the eight marks of the loop (relaxed, sign, numerator, slash,
+    sign, denominator, `base`, radix) and none is ever reset: an accepted fraction has at most eight tokens *)
+Definition b2n (b : bool) : nat := if b then 1 else 0.
+Definition o2n {A} (o : option A) : nat := match o with Some _ => 1 | None => 0 end.
+Definition rat_phase (st : rst) : nat :=
+  o2n (r_num st) + o2n (r_den st) + o2n (r_base st) + b2n (r_nsign st) + b2n (r_dsign st) +
+  b2n (r_dmark st) + b2n (r_relaxed st) + b2n (r_bmark st).
+
+Lemma rat_step_phase st t st' : rat_step st t = Some st' -> (rat_phase st < rat_phase st' <= 8)%nat.
 Proof.
-  split.
-  - exists [mk_tok TLit [49]; mk_tok TLit [50]]. split; reflexivity.
-  - exists [mk_tok TLit [49]; mk_tok TPunct [47]]. repeat split; reflexivity.
+  destruct st as [num nneg ns den dneg ds dmark rel bmark base]. destruct t as [k x].
+  unfold rat_step, rat_phase, is_char, b2n, o2n. cbn [tk ttext r_num r_den r_base r_relaxed r_nsign r_dmark r_dsign r_bmark].
+  destruct k, num, den, base, dmark, rel, bmark, ns, ds; cbn [negb andb];
+    repeat match goal with |- context [text_eqb ?a ?c] => destruct (text_eqb a c) end;
+    intros H; inversion H; cbn; lia.
 Qed.
+
+Lemma rat_phase_le st : (rat_phase st <= 8)%nat.
+Proof. destruct st as [num nneg ns den dneg ds dmark rel bmark base]. unfold rat_phase, b2n, o2n. cbn. destruct num, den, base, ns, ds, dmark, rel, bmark; lia. Qed.
+
+Theorem rat_loop_phase ts : forall st st', rat_loop st ts = Some st' -> (rat_phase st + length ts <= rat_phase st' <= 8)%nat.
+Proof.
+  induction ts as [|t ts IH]; intros st st' H; cbn [rat_loop] in H.
+  - inversion H; subst. cbn [length]. pose proof (rat_phase_le st'). lia.
+  - destruct (rat_step st t) as [st1|] eqn:E; [|discriminate].
+    pose proof (rat_step_phase _ _ _ E). pose proof (IH _ _ H). cbn [length]. lia.
+Qed.
+
+Theorem rat_tokens_asis_length ts r : rat_tokens_asis ts = Some r -> (length ts <= 8)%nat.
+Proof.
+  unfold rat_tokens_asis. destruct (rat_loop rst0 ts) as [st|] eqn:L; [|discriminate].
+  pose proof (rat_loop_phase _ _ _ L) as P. change (rat_phase rst0) with 0%nat in P. intros _. lia.
+Qed.
+
+(** F04 (repaired): a fraction without a slash, a dangling or leading slash, repeated signs and ~ are refused *)
+Example rat_outside_grammar_rejected :
+  rat_tokens_asis [mk_tok TLit [49]; mk_tok TLit [50]] = None /\
+  rat_tokens_asis [mk_tok TLit [49]; mk_tok TPunct [47]] = None /\
+  rat_tokens_asis [mk_tok TPunct [47]; mk_tok TLit [50]] = None /\
+  rat_tokens_asis [mk_tok TPunct [45]; mk_tok TPunct [45]; mk_tok TLit [49]; mk_tok TPunct [47]; mk_tok TLit [50]] = None /\
+  rat_tokens_asis [mk_tok TPunct [126]; mk_tok TPunct [126]; mk_tok TLit [49]] = None /\
+  rat_tokens_asis [mk_tok TLit [49]; mk_tok TPunct [45]; mk_tok TPunct [47]; mk_tok TLit [50]] = None.
+Proof. repeat split; reflexivity. Qed.
 
 (* ------------------------------------------------------------------------------------------ *)
 (** * binary floats: the sign handling of fbig! *)
 
-Theorem fbin_text_spec_sound ts s b : fbin_text_spec ts = Some (s, b) -> fbin_text_asis ts = (s, b).
+Theorem fbin_text_asis_spec ts : fbin_text_asis ts = fbin_text_spec ts.
 Proof.
-  unfold fbin_text_spec. destruct (fbin_text_asis ts) as [s' b']. destruct b' as [|c t].
-  - intros H. inversion H. reflexivity.
-  - destruct ((c =? 43) || (c =? 45)); [discriminate|]. intros H. inversion H. reflexivity.
+  unfold fbin_text_asis, fbin_text_spec, fbin_text_split. destruct (join_tokens ts) as [|c t]; [reflexivity|].
+  destruct c as [|p|p]; try reflexivity.
+  do 7 (destruct p as [p|p|]; try reflexivity).
 Qed.
 
-(** F05: fbig!(-+1) hands "+1" to the parser after having taken the `-` itself *)
-Theorem fbin_double_sign_refuted :
-  exists ts, fbin_text_spec ts = None /\ fbin_text_asis ts = (Negative, [43; 49]).
-Proof. exists [mk_tok TPunct [45]; mk_tok TPunct [43]; mk_tok TLit [49]]. split; reflexivity. Qed.
+(** F05 (repaired): fbig!(-+1) is refused *)
+Example fbin_double_sign_rejected :
+  fbin_text_asis [mk_tok TPunct [45]; mk_tok TPunct [43]; mk_tok TLit [49]] = None /\
+  fbin_text_asis [mk_tok TPunct [45]; mk_tok TIdent [95; 48; 120; 49]] = Some (Negative, [48; 120; 49]).
+Proof. split; reflexivity. Qed.
